@@ -16,6 +16,10 @@ type Scenario struct {
 	// Run drives the world; it reports whether the run reached the
 	// property's trigger (non-trivial) and a sample description.
 	Run func(w *World, tier string) (nontrivial bool, sample interface{})
+	// Driver, when set, orchestrates several worlds for one tape (reference
+	// run + fault enumeration). It is bypassed when the tape carries Params:
+	// then Run executes exactly that one sub-run (replay, minimisation).
+	Driver func(t *testing.T, sc *Scenario, tier string, tape *sim.Tape, keepAll bool) sim.RunResult
 }
 
 var Scenarios = map[string]*Scenario{}
@@ -24,7 +28,17 @@ func Register(s *Scenario) { Scenarios[s.Name] = s }
 
 // RunOne executes one simulated run of a scenario from a tape, inside a fresh
 // synctest bubble.
-func RunOne(t *testing.T, sc *Scenario, tier string, tape *sim.Tape, keepAll bool) (res sim.RunResult) {
+func RunOne(t *testing.T, sc *Scenario, tier string, tape *sim.Tape, keepAll bool) sim.RunResult {
+	if sc.Driver != nil && tape.Params == nil {
+		return sc.Driver(t, sc, tier, tape, keepAll)
+	}
+	res := runBubble(t, tier, tape, keepAll, func(w *World) (bool, interface{}) { return sc.Run(w, tier) })
+	res.Params = tape.Params
+	return res
+}
+
+// runBubble executes fn on a fresh world inside a fresh synctest bubble.
+func runBubble(t *testing.T, tier string, tape *sim.Tape, keepAll bool, fn func(w *World) (bool, interface{})) (res sim.RunResult) {
 	res.Seed = tape.Seed
 	res.Stats = sim.NewStats()
 	var w *World
@@ -45,7 +59,7 @@ func RunOne(t *testing.T, sc *Scenario, tier string, tape *sim.Tape, keepAll boo
 						res.Inconclusive = fmt.Sprintf("scenario panic: %v\n%s", r, debug.Stack())
 					}
 				}()
-				res.NonTrivial, res.Sample = sc.Run(w, tier)
+				res.NonTrivial, res.Sample = fn(w)
 			}()
 		})
 	}()
